@@ -59,24 +59,30 @@ def sweeper_class(kind):
     from pySDC.implementations.sweeper_classes.generic_implicit import generic_implicit
     from pySDC.implementations.sweeper_classes.imex_1st_order import imex_1st_order
     from pySDC.implementations.sweeper_classes.explicit import explicit
-    return {'impl': generic_implicit, 'imex': imex_1st_order, 'expl': explicit}[kind]
+    from pySDC.implementations.sweeper_classes.multi_implicit import multi_implicit
+    return {'impl': generic_implicit, 'imex': imex_1st_order, 'expl': explicit, 'multi': multi_implicit}[kind]
 
 
 def level_description(L, kind):
     key = f'c{next(_counter)}'
     M = L['M']
     zp.register_coeffs(key, nodes=[(m + 1) / M for m in range(M)], weights=list(L['w']), Q=[list(r) for r in L['Q']],
-                       QI=[list(r) for r in L['QI']], QE=[list(r) for r in L['QE']])
+                       QI=[list(r) for r in L['QI']], QE=[list(r) for r in L['QE']], QIK=[[list(r) for r in q] for q in L.get('QIK', [])])
     swp = dict(num_nodes=M, quad_type='RADAU-RIGHT' if L['rightnode'] else 'GAUSS', node_type='ZP:' + key,
                do_coll_update=bool(L['collupdate']))
+    if kind == 'multi':
+        swp['Q1'] = 'ZQI'
+        swp['Q2'] = 'ZQ2'
     if kind in ('impl', 'imex'):
-        swp['QI'] = 'ZQI'
+        swp['QI'] = 'ZQIK' if L.get('QIK') else 'ZQI'
     if kind in ('imex', 'expl'):
         swp['QE'] = 'ZQE'
     A = tuple(tuple(r) for r in L['A'])
     B = tuple(tuple(r) for r in L['B'])
     if kind == 'imex':
         pc, pp = zp.ZpIMEX, dict(A=A, B=B, quad=int(L['c']))
+    elif kind == 'multi':
+        pc, pp = zp.ZpMulti, dict(A=A, B=B)
     elif kind == 'expl':
         pc, pp = zp.ZpLinear, dict(A=A, B=B if any(any(r) for r in B) else None, quad=int(L['c']))
     else:
@@ -161,7 +167,8 @@ def run_sweep_case(inst, p):
         S = Step(desc)
         L = S.levels[0]
         load_level(L, inst['u0'], inst['U'], inst['tau'])
-        tot = (lambda f: f.impl + f.expl) if kind == 'imex' else (lambda f: f)
+        if inst.get('QIK'):
+            L.sweep.updateVariableCoeffs(inst['k'])  # k-dependent preconditioner: refresh for sweep index k
         out['integrate'] = vecs(L.sweep.integrate())
         res = {}
         for rt in ('full_abs', 'last_abs'):
@@ -185,7 +192,9 @@ def run_sweep_case(inst, p):
             out['sweep'] = vecs(L.u[1:])
             # after the sweep the stored right-hand sides must be those of the new values
             fresh = [L.prob.eval_f(L.u[m], 0.0) for m in range(1, inst['M'] + 1)]
-            if kind == 'imex':
+            if kind == 'multi':
+                out['f_fresh'] = all(a.comp1 == b.comp1 and a.comp2 == b.comp2 for a, b in zip(fresh, L.f[1:]))
+            elif kind == 'imex':
                 out['f_fresh'] = all(a.impl == b.impl and a.expl == b.expl for a, b in zip(fresh, L.f[1:]))
             else:
                 out['f_fresh'] = all(a == b for a, b in zip(fresh, L.f[1:]))
